@@ -470,6 +470,8 @@ class MBXMLDocument:
 
                 if valid_candidate:
                     t: MBXMLToken = copy(tokendef_setting)
+                    # shallow copy shares the list with class-level token definition
+                    t.attributes = list(tokendef_setting.attributes)
                     t.token_id = tokendef_id
                     t.value = value
 
